@@ -1435,4 +1435,747 @@ pub fn gen(rng: &mut Rng, tier: &str, out: &mut Vec<String>) {
     }
 }
 
-pub fn oracle(_rng: &mut Rng, _tier: &str, _rep: &mut Report) {}
+
+// ---------------------------------------------------------------------------------------
+// implementation-level oracles (no reference to the Lean model)
+
+/// looks up the interval that owns `q` in an in-order symbol table (binary search on `c`)
+fn table_find(t: &[Triple], q: u128) -> Option<Triple> {
+    let i = t.partition_point(|x| x.1 <= q);
+    if i == 0 {
+        return None;
+    }
+    let e = t[i - 1];
+    if e.1 <= q && q < e.1 + e.2 {
+        Some(e)
+    } else {
+        None
+    }
+}
+
+fn quantiles_for(rng: &mut Rng, p: u32, t: &[Triple], cap: usize) -> Vec<u128> {
+    let total = pow2(p);
+    if p <= 12 {
+        return (0..total).collect();
+    }
+    let mut v: Vec<u128> = vec![0, total - 1, total / 2];
+    // boundary directed
+    for _ in 0..cap / 4 {
+        if t.is_empty() {
+            break;
+        }
+        let e = rng.pick(t);
+        for q in [e.1.wrapping_sub(1), e.1, e.1 + e.2 - 1, e.1 + e.2] {
+            if q < total {
+                v.push(q);
+            }
+        }
+    }
+    // stratified
+    let stride = (total / cap as u128).max(1);
+    let mut q = rng.below(stride);
+    while q < total {
+        v.push(q);
+        q += stride;
+    }
+    v
+}
+
+fn has_invalid_entry<F: Fl>(probs: &[F]) -> bool {
+    probs.iter().any(|p| !(*p >= F::zero()))
+}
+
+/// C03 / C05 / C09 / C19 / C20 for the `…_fast` constructors: eager vs lazy vs non-contiguous
+fn oracle_fast_one<F, Pr, const P: usize>(rng: &mut Rng, rep: &mut Report)
+where
+    F: Fl + AsPrimitive<Pr>,
+    Pr: BitArray + AsPrimitive<usize> + AsPrimitive<F>,
+    usize: AsPrimitive<Pr> + AsPrimitive<F>,
+{
+    let is32 = F::NAME == "f32";
+    let n = gen_len(rng, P as u32).min(400);
+    let mut v = gen_weights(rng, n, is32);
+    let corrupted = corrupt(rng, &mut v);
+    let tbl = to_bits_list(&v, is32);
+    let norm_tok = gen_norm(rng, &v, is32);
+    let norm: Option<u128> = if norm_tok == "-" { None } else { parse_hex(&norm_tok) };
+    let replay = format!("quant.fast cont {} {:x} {:x} {} {}", F::NAME, Pr::BITS, P, norm_tok, show_list(tbl.clone()));
+    let probs: Vec<F> = tbl.iter().map(|&b| F::from_bits_u(b)).collect();
+    let normf = norm.map(F::from_bits_u);
+    rep.count(&format!("fast.{}.B{}.P{}", F::NAME, Pr::BITS, P));
+
+    let res = guarded(|| {
+        let eager = ContiguousCategoricalEntropyModel::<Pr, Vec<Pr>, P>::from_floating_point_probabilities_fast(&probs, normf);
+        let lazy = LazyContiguousCategoricalEntropyModel::<Pr, F, _, P>::from_floating_point_probabilities_fast(&probs[..], normf);
+        let ncenc = NonContiguousCategoricalEncoderModel::<usize, Pr, P>::from_symbols_and_floating_point_probabilities_fast(0..n, &probs, normf);
+        let ncdec = NonContiguousCategoricalDecoderModel::<usize, Pr, Vec<(Pr, usize)>, P>::from_symbols_and_floating_point_probabilities_fast(0..n, &probs, normf);
+        let mut fails: Vec<(&'static str, String)> = Vec::new();
+        let mut evals: Vec<&'static str> = Vec::new();
+        evals.push("C19");
+        evals.push("C05");
+        let (eager, lazy, ncenc, ncdec) = match (eager, lazy, ncenc, ncdec) {
+            (Err(()), Err(()), Err(()), Err(())) => {
+                return (evals, fails, "rejected");
+            }
+            (Ok(a), Ok(b), Ok(c), Ok(d)) => (a, b, c, d),
+            _ => {
+                fails.push(("C05", "constructors disagree on acceptance".into()));
+                return (evals, fails, "mixed");
+            }
+        };
+        // C19: accepted ⇒ documented preconditions hold
+        if has_invalid_entry(&probs) || n < 2 {
+            fails.push(("C19", "accepted a table with a negative/NaN entry or fewer than 2 entries".into()));
+        }
+        // C03: valid table
+        let table: Vec<Triple> = eager.symbol_table().map(|(s, c, p)| (s as u128, to_u128(c), to_u128(p.get()))).collect();
+        evals.push("C03");
+        if !table_valid(P as u32, &table) || table.len() != n {
+            fails.push(("C03", "symbol table of the eager model is not a valid tiling".into()));
+            return (evals, fails, "accepted");
+        }
+        // C05: every representation gives the same (c, p) for every symbol; C09: none outside
+        for s in 0..n {
+            let want = Some((table[s].1, table[s].2));
+            let e = eager.left_cumulative_and_probability(s).map(|(c, p)| (to_u128(c), to_u128(p.get())));
+            let l = lazy.left_cumulative_and_probability(s).map(|(c, p)| (to_u128(c), to_u128(p.get())));
+            let ne = ncenc.left_cumulative_and_probability(s).map(|(c, p)| (to_u128(c), to_u128(p.get())));
+            evals.push("C05");
+            if e != want || l != want || ne != want {
+                fails.push(("C05", format!("enc({}) differs: eager {:?} lazy {:?} ncenc {:?} table {:?}", s, e, l, ne, want)));
+                break;
+            }
+        }
+        for s in [n, n + 1, 0xffff, 0x10000 + 1, 0xffff_ffff, 0x1_0000_0000 + 3, usize::MAX] {
+            if s >= n {
+                evals.push("C09");
+                if eager.left_cumulative_and_probability(s).is_some() || lazy.left_cumulative_and_probability(s).is_some() || ncenc.left_cumulative_and_probability(s).is_some() {
+                    fails.push(("C09", format!("out-of-support symbol {:x} accepted", s)));
+                }
+            }
+        }
+        let nd: Vec<Triple> = ncdec.symbol_table().map(|(s, c, p)| (s as u128, to_u128(c), to_u128(p.get()))).collect();
+        evals.push("C05");
+        if nd != table {
+            fails.push(("C05", "symbol table of the non-contiguous decoder differs".into()));
+        }
+        // C03 / C05: decoders invert the encoder on every (sampled) quantile
+        let mut r2 = rng.fork();
+        for q in quantiles_for(&mut r2, P as u32, &table, 600) {
+            let want = table_find(&table, q);
+            let qq: Pr = from_u128(q);
+            let (s1, c1, p1) = eager.quantile_function(qq);
+            let (s2, c2, p2) = lazy.quantile_function(qq);
+            let (s3, c3, p3) = ncdec.quantile_function(qq);
+            let got1 = Some((s1 as u128, to_u128(c1), to_u128(p1.get())));
+            let got2 = Some((s2 as u128, to_u128(c2), to_u128(p2.get())));
+            let got3 = Some((s3 as u128, to_u128(c3), to_u128(p3.get())));
+            evals.push("C03");
+            evals.push("C05");
+            if got1 != want || got2 != want || got3 != want {
+                fails.push(("C03", format!("dec({:x}): eager {:?} lazy {:?} ncdec {:?} want {:?}", q, got1, got2, got3, want)));
+                break;
+            }
+        }
+        (evals, fails, "accepted")
+    });
+    match res {
+        Ok((evals, fails, kind)) => {
+            rep.count(&format!("fast.{}", kind));
+            if corrupted {
+                rep.count(&format!("fast.corrupted.{}", kind));
+            }
+            for e in evals {
+                rep.eval(e);
+            }
+            rep.eval("C20");
+            for (prop, what) in fails {
+                rep.fail(prop, format!("{} # {}", replay, what));
+            }
+            rep.sample("C03", || replay.clone());
+        }
+        Err(class) => {
+            rep.eval("C20");
+            rep.eval("C19");
+            rep.fail("C19", format!("{} # {}", replay, class));
+        }
+    }
+}
+
+/// C05 for the lookup constructors (small `P` only): same table, same decoder
+fn oracle_lookup_one<F, Pr, const P: usize>(rng: &mut Rng, rep: &mut Report)
+where
+    F: Fl + AsPrimitive<Pr>,
+    Pr: BitArray + AsPrimitive<usize> + Into<usize>,
+    usize: AsPrimitive<Pr> + AsPrimitive<F>,
+    f64: AsPrimitive<Pr>,
+{
+    let is32 = F::NAME == "f32";
+    let n = gen_len(rng, P as u32).min(100);
+    let mut v = gen_weights(rng, n, is32);
+    corrupt(rng, &mut v);
+    let tbl = to_bits_list(&v, is32);
+    let replay = format!("quant.fast lkc {} {:x} {:x} - {}", F::NAME, Pr::BITS, P, show_list(tbl.clone()));
+    let probs: Vec<F> = tbl.iter().map(|&b| F::from_bits_u(b)).collect();
+    let res = guarded(|| -> Result<(), String> {
+        let eager = ContiguousCategoricalEntropyModel::<Pr, Vec<Pr>, P>::from_floating_point_probabilities_fast(&probs, None);
+        let lkc = ContiguousLookupDecoderModel::<Pr, Vec<Pr>, Box<[Pr]>, P>::from_floating_point_probabilities_fast(&probs, None);
+        let lknc = NonContiguousLookupDecoderModel::<usize, Pr, Vec<(Pr, usize)>, Box<[Pr]>, P>::from_symbols_and_floating_point_probabilities_fast(0..n, &probs, None);
+        let (eager, lkc, lknc) = match (eager, lkc, lknc) {
+            (Err(()), Err(()), Err(())) => return Ok(()),
+            (Ok(a), Ok(b), Ok(c)) => (a, b, c),
+            _ => return Err("constructors disagree on acceptance".into()),
+        };
+        let table: Vec<Triple> = eager.symbol_table().map(|(s, c, p)| (s as u128, to_u128(c), to_u128(p.get()))).collect();
+        let t2: Vec<Triple> = lkc.symbol_table().map(|(s, c, p)| (s as u128, to_u128(c), to_u128(p.get()))).collect();
+        let t3: Vec<Triple> = lknc.symbol_table().map(|(s, c, p)| (s as u128, to_u128(c), to_u128(p.get()))).collect();
+        if t2 != table || t3 != table {
+            return Err("lookup symbol tables differ".into());
+        }
+        let conv = eager.to_lookup_decoder_model();
+        for q in 0..pow2(P as u32) {
+            let want = table_find(&table, q);
+            let qq: Pr = from_u128(q);
+            for (name, (s, c, p)) in [("lkc", lkc.quantile_function(qq)), ("lknc", lknc.quantile_function(qq)), ("to_lookup", conv.quantile_function(qq))] {
+                if Some((s as u128, to_u128(c), to_u128(p.get()))) != want {
+                    return Err(format!("{} dec({:x}) differs", name, q));
+                }
+            }
+        }
+        Ok(())
+    });
+    rep.eval("C05");
+    rep.eval("C20");
+    match res {
+        Ok(Ok(())) => {}
+        Ok(Err(what)) => rep.fail("C05", format!("{} # {}", replay, what)),
+        Err(class) => rep.fail("C19", format!("{} # {}", replay, class)),
+    }
+}
+
+/// C19 for the `…_perfect` constructors: rejected, or a valid model
+fn oracle_perfect_one<F, Pr, const P: usize>(rng: &mut Rng, rep: &mut Report) -> Option<Vec<u128>>
+where
+    F: Fl,
+    Pr: BitArray + Into<f64> + AsPrimitive<usize>,
+    f64: AsPrimitive<Pr>,
+    usize: AsPrimitive<Pr>,
+{
+    let is32 = F::NAME == "f32";
+    let n = (gen_len(rng, P as u32)).min(if P <= 3 { 7 } else { 60 });
+    let mut v = gen_weights(rng, n, is32);
+    corrupt(rng, &mut v);
+    let tbl = to_bits_list(&v, is32);
+    let replay = format!("quant.perfect {} {:x} {:x} {} -", F::NAME, Pr::BITS, P, show_list(tbl.clone()));
+    let probs: Vec<F> = tbl.iter().map(|&b| F::from_bits_u(b)).collect();
+    let res = guarded(|| perfect_weights::<F, Pr, P>(&tbl));
+    rep.eval("C19");
+    rep.eval("C20");
+    match res {
+        Err(class) => rep.fail("C19", format!("{} # {}", replay, class)),
+        Ok(None) => rep.count("perfect.rejected"),
+        Ok(Some(w)) => {
+            rep.count("perfect.accepted");
+            let ok = w.len() == n && w.iter().all(|&x| x > 0 && x < pow2(P as u32)) && w.iter().sum::<u128>() == pow2(P as u32);
+            if !ok || has_invalid_entry(&probs) || n < 2 {
+                rep.fail("C19", format!("{} # accepted but invalid", replay));
+            }
+        }
+    }
+    None
+}
+
+fp_combos!(dispatch_oracle_fast, oracle_fast_one, (rng: &mut Rng, rep: &mut Report) (rng, rep) -> ());
+lookup_combos!(dispatch_oracle_lookup, oracle_lookup_one, (rng: &mut Rng, rep: &mut Report) (rng, rep) -> ());
+perfect_combos!(dispatch_oracle_perfect, oracle_perfect_one, (rng: &mut Rng, rep: &mut Report) (rng, rep) -> Option<Vec<u128>>);
+
+/// C03 / C05 / C09 for one quantised model, with the spec's hint and a set of wrong hints
+fn oracle_leaky_generic<S, Pr, const P: usize>(spec: &LeakySpec, rng: &mut Rng, rep: &mut Report) -> Option<()>
+where
+    S: PrimInt + AsPrimitive<Pr> + AsPrimitive<usize> + Into<f64> + WrappingSub + WrappingAdd + Debug + std::hash::Hash + Default + 'static,
+    Pr: BitArray + Into<f64>,
+    f64: AsPrimitive<Pr> + AsPrimitive<S>,
+    usize: AsPrimitive<S>,
+{
+    let replay = leaky_line_text(spec, &[], &[]);
+    let built = spec.base.build();
+    let rec: RecCdf = RefCell::new(Vec::new());
+    let inv: RecInv = RefCell::new(Vec::new());
+    let (tlo, thi) = sym_range(spec.sym);
+    let to_s = |v: i128| -> S { <S as num_traits::NumCast>::from(v).unwrap() };
+    let total = pow2(P as u32);
+    let size = (spec.max - spec.min) as u128 + 1;
+    rep.count(&format!("leaky.{}.B{}.P{}", spec.sym, Pr::BITS, P));
+    rep.count(&format!("leaky.dist.{}", spec.base.tokens().split(' ').next().unwrap()));
+
+    let quantizer = match guarded(|| LeakyQuantizer::<f64, S, Pr, P>::new(to_s(spec.min)..=to_s(spec.max))) {
+        Ok(q) => q,
+        Err(class) => {
+            rep.eval("C19");
+            rep.fail("C19", format!("{} # valid support rejected: {}", replay, class));
+            return Some(());
+        }
+    };
+    rep.eval("C19");
+    let is_u = spec.base.is_u();
+    // the hints to try: the spec's own and a fixed set of wrong ones
+    let mut hints: Vec<HintMode> = vec![spec.hint];
+    if is_u {
+        hints.extend([HintMode::ConstU(0), HintMode::ConstU(usize::MAX), HintMode::ConstU(spec.max as usize), HintMode::ConstU((1usize << 31) + 7)]);
+    } else {
+        hints.extend([
+            HintMode::ConstF(1e9),
+            HintMode::ConstF(-1e9),
+            HintMode::ConstF(f64::NAN),
+            HintMode::ConstF(f64::INFINITY),
+            HintMode::ConstF(f64::NEG_INFINITY),
+            HintMode::ConstF(spec.min as f64),
+            HintMode::ConstF(spec.max as f64),
+            HintMode::ConstF(tlo as f64),
+            HintMode::ConstF(thi as f64),
+            HintMode::Noisy(rng.next(), 1e6),
+        ]);
+    }
+    let res = guarded(|| -> Vec<(&'static str, String)> {
+        let mut fails: Vec<(&'static str, String)> = Vec::new();
+        let model_f = quantizer.quantize(RecF { d: &built, hint: spec.hint, rec: &rec, inv: &inv });
+        // encoder view: all symbols (or a contiguous window plus samples for huge supports)
+        let full = size <= 6000;
+        let syms: Vec<i128> = if full {
+            (spec.min..=spec.max).collect()
+        } else {
+            let mut v: Vec<i128> = (0..3000).map(|i| spec.min + i).collect();
+            v.extend((0..3000).rev().map(|i| spec.max - i));
+            v
+        };
+        let enc = |s: i128| -> Option<(u128, u128)> { model_f.left_cumulative_and_probability(to_s(s)).map(|(c, p)| (to_u128(c), to_u128(p.get()))) };
+        let mut table: Vec<Triple> = Vec::new();
+        for &s in &syms {
+            rec.borrow_mut().clear();
+            match enc(s) {
+                None => {
+                    fails.push(("C03", format!("symbol {} inside the support has probability zero", s)));
+                    return fails;
+                }
+                Some((c, p)) => table.push(((s as u128) & ((1u128 << 64) - 1), c, p)),
+            }
+        }
+        // C03: tiling, non-empty bins, none of probability one
+        let mut ok = table[0].1 == 0 && table.last().map(|e| e.1 + e.2) == Some(total);
+        for w in table.windows(2) {
+            let contiguous = w[0].1 + w[0].2 == w[1].1;
+            // a gap is expected exactly once for huge supports (between the two windows)
+            if !contiguous && full {
+                ok = false;
+            }
+            if !full && !contiguous && w[0].1 + w[0].2 > w[1].1 {
+                ok = false;
+            }
+        }
+        if table.iter().any(|e| e.2 == 0 || e.2 >= total) {
+            ok = false;
+        }
+        if !ok {
+            fails.push(("C03", "encoder view is not a tiling of [0, 2^P) by non-empty proper bins".into()));
+            return fails;
+        }
+        // C09: zero outside the support, for every out-of-support value tried
+        for s in [spec.min - 1, spec.max + 1, tlo, thi, spec.min - 1000, spec.max + 1000, 0, -1, 1 << 16, (1 << 16) + 1, -(1 << 15) - 1] {
+            if s >= tlo && s <= thi && (s < spec.min || s > spec.max) {
+                if enc(s).is_some() {
+                    fails.push(("C09", format!("out-of-support symbol {} has nonzero probability", s)));
+                }
+            }
+        }
+        // C05: iterated symbol table == direct queries; generic conversions
+        if full {
+            let it: Vec<Triple> = model_f
+                .symbol_table()
+                .map(|(s, c, p)| ((s.to_i128().unwrap() as u128) & ((1u128 << 64) - 1), to_u128(c), to_u128(p.get())))
+                .collect();
+            if it != table {
+                fails.push(("C05", "symbol_table() differs from left_cumulative_and_probability".into()));
+            }
+            let ge = model_f.to_generic_encoder_model();
+            let gd = model_f.to_generic_decoder_model();
+            for (i, &s) in syms.iter().enumerate() {
+                let g = ge.left_cumulative_and_probability(to_s(s)).map(|(c, p)| (to_u128(c), to_u128(p.get())));
+                if g != Some((table[i].1, table[i].2)) {
+                    fails.push(("C05", format!("to_generic_encoder_model differs at {}", s)));
+                    break;
+                }
+            }
+            if ge.left_cumulative_and_probability(to_s((spec.min - 1).max(tlo))).is_some() && spec.min > tlo {
+                fails.push(("C09", "generic encoder accepts an out-of-support symbol".into()));
+            }
+            let mut r3 = rng.fork();
+            for q in quantiles_for(&mut r3, P as u32, &table, 300) {
+                let (s, c, p) = gd.quantile_function(from_u128(q));
+                let got = Some(((s.to_i128().unwrap() as u128) & ((1u128 << 64) - 1), to_u128(c), to_u128(p.get())));
+                if got != table_find(&table, q) {
+                    fails.push(("C05", format!("to_generic_decoder_model differs at quantile {:x}", q)));
+                    break;
+                }
+            }
+        }
+        // C03: decoder ∘ encoder for every (sampled) quantile and every hint
+        let mut r2 = rng.fork();
+        let qs = quantiles_for(&mut r2, P as u32, &table, 300);
+        for h in &hints {
+            let check = |q: u128, got: (i128, u128, u128)| -> Option<String> {
+                let want = table_find(&table, q);
+                let g = Some(((got.0 as u128) & ((1u128 << 64) - 1), got.1, got.2));
+                if full || want.is_some() {
+                    if g != want {
+                        return Some(format!("hint {:?}: dec({:x}) = {:?}, encoder view {:?}", h, q, got, want));
+                    }
+                } else {
+                    // huge support: the symbol was not tabulated; ask the encoder directly
+                    let e = enc(got.0);
+                    if e != Some((got.1, got.2)) || !(got.1 <= q && q < got.1 + got.2) {
+                        return Some(format!("hint {:?}: dec({:x}) = {:?} inconsistent with enc = {:?}", h, q, got, e));
+                    }
+                }
+                None
+            };
+            let mut bad = None;
+            if is_u {
+                let m = quantizer.quantize(RecU { d: &built, hint: *h, rec: &rec, inv: &inv });
+                for &q in &qs {
+                    rec.borrow_mut().clear();
+                    inv.borrow_mut().clear();
+                    let (s, c, p) = m.quantile_function(from_u128(q));
+                    bad = check(q, (s.to_i128().unwrap(), to_u128(c), to_u128(p.get())));
+                    if bad.is_some() {
+                        break;
+                    }
+                }
+            } else {
+                let m = quantizer.quantize(RecF { d: &built, hint: *h, rec: &rec, inv: &inv });
+                for &q in &qs {
+                    rec.borrow_mut().clear();
+                    inv.borrow_mut().clear();
+                    let (s, c, p) = m.quantile_function(from_u128(q));
+                    bad = check(q, (s.to_i128().unwrap(), to_u128(c), to_u128(p.get())));
+                    if bad.is_some() {
+                        break;
+                    }
+                }
+            }
+            if let Some(b) = bad {
+                fails.push(("C03", b));
+                break;
+            }
+        }
+        fails.push(("evals", format!("{} {} {}", table.len(), qs.len() * hints.len(), if full { table.len() } else { 0 })));
+        fails
+    });
+    rep.eval("C20");
+    match res {
+        Err(class) => rep.fail("C20", format!("{} # {}", replay, class)),
+        Ok(fails) => {
+            for (prop, what) in fails {
+                if prop == "evals" {
+                    let v: Vec<u64> = what.split(' ').map(|x| x.parse().unwrap()).collect();
+                    for _ in 0..v[0] {
+                        rep.eval("C09");
+                    }
+                    *rep.evals.entry("C03".into()).or_insert(0) += v[0] + v[1];
+                    *rep.evals.entry("C05".into()).or_insert(0) += v[2];
+                } else {
+                    rep.fail(prop, format!("{} # {}", replay, what));
+                }
+            }
+            rep.sample("C03", || replay.clone());
+        }
+    }
+    Some(())
+}
+
+macro_rules! leaky_oracle_dispatch {
+    ([$(($S:ty, $ss:literal)),*], $bp:tt) => {
+        fn dispatch_leaky_oracle(spec: &LeakySpec, rng: &mut Rng, rep: &mut Report) -> Option<()> {
+            $( if spec.sym == $ss { return leaky_oracle_dispatch!(@bp $S, spec, rng, rep, $bp); } )*
+            None
+        }
+    };
+    (@bp $S:ty, $spec:ident, $rng:ident, $rep:ident, [$(($Pr:ty, $P:literal)),*]) => {{
+        $( if $spec.b == <$Pr>::BITS as u32 && $spec.p == $P { return oracle_leaky_generic::<$S, $Pr, $P>($spec, $rng, $rep); } )*
+        None
+    }};
+}
+leaky_oracle_dispatch!(
+    [(u8, "u8"), (i8, "i8"), (u16, "u16"), (i16, "i16"), (u32, "u32"), (i32, "i32")],
+    [(u8, 1), (u8, 4), (u8, 8), (u16, 8), (u16, 12), (u16, 16), (u32, 12), (u32, 24), (u32, 32)]
+);
+
+/// C19 / C09 for `LeakyQuantizer::new`: accepted iff 2 <= size <= 2^P, for every symbol type
+fn oracle_new(rng: &mut Rng, rep: &mut Report) {
+    let line = gen_new_line(rng);
+    let segs = segments(&line);
+    let h = &segs[0];
+    let (sym, b, p) = (h[1], parse_hex(h[2]).unwrap() as u32, parse_hex(h[3]).unwrap() as u32);
+    let (mn, mx) = (parse_sym(sym, h[4]).unwrap(), parse_sym(sym, h[5]).unwrap());
+    let out = dispatch_new(sym, b, p, mn, mx).unwrap_or("unsupported".into());
+    rep.eval("C19");
+    rep.eval("C20");
+    let size_m1 = mx - mn;
+    let should_accept = size_m1 >= 1 && (size_m1 as u128) <= pow2(p) - 1;
+    let accepted = out.starts_with("ok ");
+    rep.count(if accepted { "new.accepted" } else { "new.rejected" });
+    if accepted != should_accept {
+        rep.fail("C19", format!("{} # got {} but support size - 1 = {}", line, out, size_m1));
+    } else if accepted && out != format!("ok {:x}", pow2(p) - 1 - size_m1 as u128) {
+        rep.fail("C19", format!("{} # wrong free weight {}", line, out));
+    }
+}
+
+// ---- C18 diagnostics: independent high-precision evaluation -----------------------------
+
+/// double-double (unevaluated sum of two `f64`)
+#[derive(Clone, Copy, Debug)]
+struct DD(f64, f64);
+
+fn two_sum(a: f64, b: f64) -> (f64, f64) {
+    let s = a + b;
+    let bb = s - a;
+    (s, (a - (s - bb)) + (b - bb))
+}
+fn two_prod(a: f64, b: f64) -> (f64, f64) {
+    let p = a * b;
+    (p, a.mul_add(b, -p))
+}
+impl DD {
+    fn from(x: f64) -> DD {
+        DD(x, 0.0)
+    }
+    fn add(self, o: DD) -> DD {
+        let (s, e) = two_sum(self.0, o.0);
+        let e = e + (self.1 + o.1);
+        let (s, e) = two_sum(s, e);
+        DD(s, e)
+    }
+    fn neg(self) -> DD {
+        DD(-self.0, -self.1)
+    }
+    fn mul_f(self, x: f64) -> DD {
+        let (p, e) = two_prod(self.0, x);
+        let e = e + self.1 * x;
+        let (s, e) = two_sum(p, e);
+        DD(s, e)
+    }
+    fn val(self) -> f64 {
+        self.0 + self.1
+    }
+}
+
+/// `log2` of `m / 2^63` for `2^63 <= m < 2^64` (i.e. of a number in `[1, 2)`), by repeated
+/// squaring in integer arithmetic: 62 fractional bits, no floating point involved.
+fn log2_frac_fixed(m: u64) -> u64 {
+    let mut x: u128 = m as u128; // Q1.63
+    let mut r: u64 = 0;
+    for i in 1..=62 {
+        x = (x * x) >> 63;
+        if x >= (1u128 << 64) {
+            r |= 1u64 << (62 - i);
+            x >>= 1;
+        }
+    }
+    r // fraction = r / 2^62
+}
+
+/// high-precision `log2` of a positive finite `f64` (exact integer part, 62-bit fraction)
+fn log2_hp(x: f64) -> DD {
+    assert!(x > 0.0 && x.is_finite());
+    let bits = x.to_bits();
+    let mut e = ((bits >> 52) & 0x7ff) as i64;
+    let mut mant = bits & ((1u64 << 52) - 1);
+    if e == 0 {
+        // subnormal: normalise
+        let sh = mant.leading_zeros() as i64 - 11;
+        mant <<= sh;
+        mant &= (1u64 << 52) - 1;
+        e = 1 - sh;
+    }
+    let m = (1u64 << 63) | (mant << 11);
+    let r = log2_frac_fixed(m);
+    let hi = (r >> 9) as f64 / (1u64 << 53) as f64;
+    let lo = (r & 0x1ff) as f64 / (1u64 << 62) as f64;
+    DD::from((e - 1023) as f64).add(DD(hi, 0.0)).add(DD(lo, 0.0))
+}
+
+/// textbook definitions evaluated independently: `probs` are the model's fixed-point
+/// probabilities (`Σ = 2^P`), `q` the floating-point reference distribution
+struct Textbook {
+    entropy: f64,
+    cross: f64,
+    rev_cross: f64,
+    kl: f64,
+    rev_kl: f64,
+    /// Σ |terms| of each, for the tolerance
+    mag: [f64; 5],
+}
+
+fn textbook(p: u32, probs: &[u128], q: &[f64]) -> Textbook {
+    let total = 2f64.powi(p as i32);
+    let pf = p as f64;
+    let mut h = DD::from(0.0);
+    let mut cross = DD::from(0.0);
+    let mut rcross = DD::from(0.0);
+    let mut kl = DD::from(0.0);
+    let mut rkl = DD::from(0.0);
+    let mut mag = [0f64; 5];
+    for (i, &pi) in probs.iter().enumerate() {
+        let x = pi as f64 / total; // exact
+        let lx = log2_hp(pi as f64).add(DD::from(-pf)); // log2(p_i / 2^P)
+        // H = - Σ x log2 x
+        let t = lx.mul_f(x).neg();
+        h = h.add(t);
+        mag[0] += (pi as f64 * (pi as f64).log2()).abs() / total;
+        if let Some(&qi) = q.get(i) {
+            // H(q, model) = - Σ q log2 x
+            let t = lx.mul_f(qi).neg();
+            cross = cross.add(t);
+            mag[1] += (qi * (pf + (pi as f64).log2().abs())).abs();
+            if qi > 0.0 {
+                let lq = log2_hp(qi);
+                // H(model, q) = - Σ x log2 q
+                rcross = rcross.add(lq.mul_f(x).neg());
+                mag[2] += (pi as f64 * lq.val()).abs() / total;
+                // KL(q || model) = Σ q (log2 q - log2 x)
+                kl = kl.add(lq.add(lx.neg()).mul_f(qi));
+                mag[3] += qi * (lq.val().abs() + (pi as f64).log2().abs()) + pf * qi;
+                // KL(model || q) = Σ x (log2 x - log2 q)
+                rkl = rkl.add(lx.add(lq.neg()).mul_f(x));
+                mag[4] += pi as f64 * ((pi as f64).log2().abs() + lq.val().abs()) / total + pf;
+            }
+        }
+    }
+    Textbook { entropy: h.val(), cross: cross.val(), rev_cross: rcross.val(), kl: kl.val(), rev_kl: rkl.val(), mag }
+}
+
+fn oracle_diag_model<'m, M, const P: usize>(model: &'m M, q: &[f64], replay: &str, rep: &mut Report)
+where
+    M: IterableEntropyModel<'m, P>,
+    M::Probability: Into<f64>,
+    f64: From<M::Probability>,
+{
+    let table: Vec<(u128, u128)> = model.symbol_table().map(|(_, c, p)| (to_u128(c), to_u128(p.get()))).collect();
+    let probs: Vec<u128> = table.iter().map(|x| x.1).collect();
+    let n = probs.len();
+    let tb = textbook(P as u32, &probs, q);
+    let eps = f64::EPSILON;
+    let tol = |mag: f64| 4.0 * (n as f64 + 8.0) * eps * (mag + 1.0);
+    let mut check = |name: &str, got: f64, want: f64, mag: f64, rep: &mut Report| {
+        rep.eval("C18");
+        let err = (got - want).abs();
+        if !(err <= tol(mag)) {
+            rep.fail("C18", format!("{} # {}: crate {:e} textbook {:e} |diff| {:e} > tol {:e}", replay, name, got, want, err, tol(mag)));
+        }
+    };
+    check("entropy_base2", model.entropy_base2::<f64>(), tb.entropy, tb.mag[0] + P as f64, rep);
+    check("cross_entropy_base2", model.cross_entropy_base2::<f64>(q.iter().copied()), tb.cross, tb.mag[1], rep);
+    // forward KL: zeros of q contribute nothing
+    check("kl_divergence_base2", model.kl_divergence_base2::<f64>(q.iter().copied()), tb.kl, tb.mag[3], rep);
+    if q.iter().all(|&x| x > 0.0) {
+        check("reverse_cross_entropy_base2", model.reverse_cross_entropy_base2::<f64>(q.iter().copied()), tb.rev_cross, tb.mag[2], rep);
+        check("reverse_kl_divergence_base2", model.reverse_kl_divergence_base2::<f64>(q.iter().copied()), tb.rev_kl, tb.mag[4], rep);
+    }
+    // floating-point symbol table: exact
+    let total = 2f64.powi(P as i32);
+    let fp: Vec<(f64, f64)> = model.floating_point_symbol_table::<f64>().map(|(_, c, p)| (c, p)).collect();
+    rep.eval("C18");
+    if fp.len() != n || fp.iter().zip(table.iter()).any(|(a, b)| a.0 != b.0 as f64 / total || a.1 != b.1 as f64 / total) {
+        rep.fail("C18", format!("{} # floating_point_symbol_table is not cumulative/2^P, probability/2^P", replay));
+    }
+}
+
+fn gen_q(rng: &mut Rng, n: usize, with_zeros: bool) -> Vec<f64> {
+    let mut v = gen_weights(rng, n, false);
+    for x in v.iter_mut() {
+        if !(*x > 0.0) || !x.is_finite() {
+            *x = if with_zeros { 0.0 } else { 1e-9 };
+        }
+    }
+    if with_zeros && n > 0 && rng.chance(1, 2) {
+        let i = (rng.next() % n as u64) as usize;
+        v[i] = 0.0;
+    }
+    let sum: f64 = v.iter().sum();
+    if !(sum > 0.0) || !sum.is_finite() {
+        return vec![1.0 / n as f64; n];
+    }
+    let v: Vec<f64> = v.iter().map(|x| x / sum).collect();
+    if v.iter().any(|x| !x.is_finite()) || (!with_zeros && v.iter().any(|&x| x == 0.0)) {
+        return vec![1.0 / n as f64; n];
+    }
+    v
+}
+
+fn oracle_diag(rng: &mut Rng, rep: &mut Report) {
+    // categorical models (fixed-point tables from the fast constructor)
+    let n = 2 + (rng.next() % 60) as usize;
+    let w = gen_weights(rng, n, false);
+    let w: Vec<f64> = w.iter().map(|x| if x.is_finite() && *x >= 0.0 { *x } else { 0.0 }).collect();
+    let wz = rng.chance(1, 2);
+    let q = gen_q(rng, n, wz);
+    let tbl = show_list(w.iter().map(|x| x.to_bits() as u128));
+    match rng.next() % 3 {
+        0 => {
+            if let Ok(m) = ContiguousCategoricalEntropyModel::<u32, Vec<u32>, 24>::from_floating_point_probabilities_fast(&w, None) {
+                oracle_diag_model::<_, 24>(&m, &q, &format!("quant.fast cont f64 20 18 - {} # q={:?}", tbl, q), rep);
+            }
+        }
+        1 => {
+            if let Ok(m) = ContiguousCategoricalEntropyModel::<u16, Vec<u16>, 12>::from_floating_point_probabilities_fast(&w, None) {
+                oracle_diag_model::<_, 12>(&m, &q, &format!("quant.fast cont f64 10 c - {} # q={:?}", tbl, q), rep);
+            }
+        }
+        _ => {
+            if let Ok(m) = ContiguousCategoricalEntropyModel::<u32, Vec<u32>, 32>::from_floating_point_probabilities_fast(&w, None) {
+                oracle_diag_model::<_, 32>(&m, &q, &format!("quant.fast cont f64 20 20 - {} # q={:?}", tbl, q), rep);
+            }
+        }
+    }
+    // quantised models
+    let lo = -((rng.next() % 50) as i32) - 1;
+    let hi = (rng.next() % 50) as i32 + 1;
+    let sigma = 0.1 + (rng.next() % 1000) as f64 / 10.0;
+    let mu = (rng.next() % 100) as f64 - 50.0;
+    let quantizer = LeakyQuantizer::<f64, i32, u32, 24>::new(lo..=hi);
+    let m = quantizer.quantize(Gaussian::new(mu, sigma));
+    let wz = rng.chance(1, 2);
+    let q = gen_q(rng, (hi - lo + 1) as usize, wz);
+    oracle_diag_model::<_, 24>(&m, &q, &format!("leaky i32 u32 24 {}..={} gauss {} {} # q={:?}", lo, hi, mu, sigma, q), rep);
+}
+
+pub fn oracle(rng: &mut Rng, tier: &str, rep: &mut Report) {
+    let k = if tier == "thorough" { 20 } else { 1 };
+    let fnames = ["f32", "f64"];
+    for _ in 0..700 * k {
+        let (b, p) = pick_bp(rng, FP_BP);
+        let f = *rng.pick(&fnames);
+        dispatch_oracle_fast(f, b, p, rng, rep);
+    }
+    for _ in 0..60 * k {
+        let (b, p) = pick_bp(rng, LOOKUP_BP);
+        let f = *rng.pick(&fnames);
+        dispatch_oracle_lookup(f, b, p, rng, rep);
+    }
+    for _ in 0..300 * k {
+        let (b, p) = pick_bp(rng, PERFECT_BP);
+        let f = *rng.pick(&fnames);
+        dispatch_oracle_perfect(f, b, p, rng, rep);
+    }
+    for _ in 0..500 * k {
+        oracle_new(rng, rep);
+    }
+    for i in 0..260 * k {
+        // mostly small supports (every quantile × every hint), some huge ones
+        let spec = gen_leaky_spec(rng, if i % 8 == 0 { 1 << 20 } else { 400 });
+        dispatch_leaky_oracle(&spec, rng, rep);
+    }
+    for _ in 0..300 * k {
+        oracle_diag(rng, rep);
+    }
+}
